@@ -5,6 +5,8 @@ package main
 import (
 	"bytes"
 	"context"
+	"encoding/binary"
+	"hash/crc32"
 	"fmt"
 	"io"
 	"sort"
@@ -116,6 +118,68 @@ func (r *c11Runner) metaStep(f []string) string {
 			uids = append(uids, "u"+u)
 		}
 		return res(r.metaSrc().HashSlot(meta.HashSlot(s)).AddSubscribers(ctx, "g"+f[2], int64(typ%3+1), uids, uint64(len(uids))))
+	case "xbulk":
+		// xbulk s n : n users in hash slot s (more than one 1024-entry import batch)
+		s, ok := slot(1)
+		if !ok || len(f) != 3 {
+			return "bad-op"
+		}
+		n, ok := c11Num(f[2])
+		if !ok || n > 5000 {
+			return "bad-op"
+		}
+		sh := r.metaSrc().HashSlot(meta.HashSlot(s))
+		for i := uint64(0); i < n; i++ {
+			if err := sh.UpsertUser(ctx, meta.User{UID: fmt.Sprintf("b%05d", i), Token: "t", DeviceFlag: 1, DeviceLevel: 1}); err != nil {
+				return "err"
+			}
+		}
+		return "ok"
+	case "xforeign":
+		// xforeign restore|plain f pos : a mis-assembled backup — the kept stream (header = the requested
+		// slots, valid checksum) with ONE entry of foreign hash slot f spliced in after `pos` of its entries —
+		// imported into a target that already holds the restored data; must be rejected AND leave the
+		// target byte-identical.
+		if len(f) != 4 || (f[1] != "restore" && f[1] != "plain") {
+			return "bad-op"
+		}
+		fs, ok := slot(2)
+		pos, ok2 := c11Num(f[3])
+		if !ok || !ok2 {
+			return "bad-op"
+		}
+		if r.mstream == nil {
+			return "no-stream"
+		}
+		for _, sl := range r.mslots {
+			if sl == fs {
+				return "guard:not-foreign"
+			}
+		}
+		other, err := c11MetaExport(r.metaSrc(), []uint16{fs}, r.mbackup)
+		if err != nil {
+			return "err"
+		}
+		fk, fv, ok := c11FirstEntry(other, 1)
+		if !ok {
+			return "guard:foreign-empty"
+		}
+		crafted, ok := c11Splice(r.mstream, len(r.mslots), fk, fv, int(pos))
+		if !ok {
+			return "splice-failed"
+		}
+		r.freshMetaDst()
+		if err := c11MetaImport(r.mdst, f[1], r.mslots, r.mstream); err != nil {
+			return "setup-import-failed"
+		}
+		before, _ := meta.VerifDumpAll(r.mdst)
+		err = c11MetaImport(r.mdst, f[1], r.mslots, crafted)
+		after, _ := meta.VerifDumpAll(r.mdst)
+		same := strings.Join(before, ";") == strings.Join(after, ";")
+		if err != nil {
+			return fmt.Sprintf("rejected same=%v entries=%d", same, len(before))
+		}
+		return fmt.Sprintf("accepted same=%v", same)
 	case "xexport":
 		if len(f) < 3 || (f[1] != "backup" && f[1] != "full") {
 			return "bad-op"
@@ -210,4 +274,53 @@ func (r *c11Runner) metaStep(f []string) string {
 		return fmt.Sprintf("n=%d rejected=%d accepted=%d partial=%d", n, rej, acc, partial)
 	}
 	return "bad-op"
+}
+
+// slot snapshot stream: magic4 ver2 nslots2 slots(2 each) count8 { uvarint klen, uvarint vlen, key, value }* crc4
+
+func c11MetaHeaderLen(nslots int) int { return 4 + 2 + 2 + 2*nslots + 8 }
+
+func c11FirstEntry(stream []byte, nslots int) (k, v []byte, ok bool) {
+	p := c11MetaHeaderLen(nslots)
+	if len(stream) < p+4 || binary.BigEndian.Uint64(stream[p-8:p]) == 0 {
+		return nil, nil, false
+	}
+	kl, n1 := binary.Uvarint(stream[p:])
+	vl, n2 := binary.Uvarint(stream[p+n1:])
+	st := p + n1 + n2
+	if n1 <= 0 || n2 <= 0 || st+int(kl)+int(vl) > len(stream)-4 {
+		return nil, nil, false
+	}
+	return stream[st : st+int(kl)], stream[st+int(kl) : st+int(kl)+int(vl)], true
+}
+
+// c11Splice inserts one entry after `pos` (mod count+1) entries, bumps the count, recomputes the trailer.
+func c11Splice(stream []byte, nslots int, k, v []byte, pos int) ([]byte, bool) {
+	h := c11MetaHeaderLen(nslots)
+	if len(stream) < h+4 {
+		return nil, false
+	}
+	count := binary.BigEndian.Uint64(stream[h-8 : h])
+	at := h
+	skip := pos % (int(count) + 1)
+	for i := 0; i < skip; i++ {
+		kl, n1 := binary.Uvarint(stream[at:])
+		vl, n2 := binary.Uvarint(stream[at+n1:])
+		if n1 <= 0 || n2 <= 0 {
+			return nil, false
+		}
+		at += n1 + n2 + int(kl) + int(vl)
+		if at > len(stream)-4 {
+			return nil, false
+		}
+	}
+	out := append([]byte(nil), stream[:at]...)
+	out = binary.AppendUvarint(out, uint64(len(k)))
+	out = binary.AppendUvarint(out, uint64(len(v)))
+	out = append(out, k...)
+	out = append(out, v...)
+	out = append(out, stream[at:len(stream)-4]...)
+	binary.BigEndian.PutUint64(out[h-8:h], count+1)
+	out = binary.BigEndian.AppendUint32(out, crc32.ChecksumIEEE(out))
+	return out, true
 }
